@@ -63,7 +63,7 @@ def op_lines(scn, r):
 
 LIFECYCLE_HOOKS = ['on_create', 'on_entering', 'on_entered', 'on_exiting', 'on_run', 'on_running', 'on_exit_running',
                    'on_wait', 'on_waiting', 'on_exit_waiting', 'on_finish', 'on_finished', 'on_except', 'on_excepted',
-                   'on_terminated', 'on_close']
+                   'on_kill', 'on_killed', 'on_terminated', 'on_close']
 
 
 def is_lifecycle(kind):
@@ -121,7 +121,7 @@ def monitor(scn, r, class_of=None):
         out.append((f"run-error:{r['error'].split(':')[0]}", 'the run completes', dict(error=r['error'])))
     elif class_of is not None:
         for pid, fin in enumerate(r['finals']):
-            exp = expected_final(scn['classes'][class_of[pid]])
+            exp = ('killed', None) if pid in r.get('killed', []) else expected_final(scn['classes'][class_of[pid]])
             if fin is None or tuple(fin) != exp:
                 sig = 'scope-assertion-failed' if fin and fin[1] == 'AssertionError' else f'unexpected-final:{fin[0] if fin else None}:{fin[1] if fin else None}'
                 out.append((sig, 'the assertion of _process_scope never fails; processes end as their program says',
@@ -162,6 +162,11 @@ def corpus():
         ('wait-in-nested', dict(classes=[[S(['x1', 'o'])], [S(['a'], 'wait'), S(['o'])]], cbs=[], top=[0, 0])),
         ('out-continue-raise', dict(classes=[[S(['u', 'a', 'u'], 'next'), S(['a'], 'raise')]], cbs=[], top=[0, 0])),
         ('child-of-nested', dict(classes=[[S(['x1', 'a'])], [S(['l2', 'a'])], [S(['a', 'o'])]], cbs=[], top=[0])),
+        ('kill-while-waiting+peer', dict(classes=[[S(['o'], 'wait'), S(['o'])], [S(['a', 'o'])]], cbs=[], top=[0, 1], kills=[0])),
+        ('kill-nested-while-waiting', dict(classes=[[S(['x1', 'o', 'a'])], [S(['a'], 'wait'), S(['o'])]], cbs=[], top=[0, 0],
+                                           kills=[2, 3])),
+        ('kill-child-while-waiting', dict(classes=[[S(['l1', 'a'], 'wait'), S([])], [S(['u'], 'wait'), S(['o'])]], cbs=[['o']],
+                                          top=[0], kills=[0, 1], ext=[[0, 0]])),
         ('external-callback', dict(classes=[[S(['a', 'o'])]], cbs=[['o', 'a', 'o']], top=[0], ext=[[0, 0]])),
         ('external-callbacks+peer', dict(classes=[[S(['a'])], [S(['a', 'o'])]], cbs=[['o']], top=[0, 1], ext=[[0, 0], [1, 0]])),
         ('external-callback-in-nested', dict(classes=[[S(['x1', 'o'])], [S(['a'])]], cbs=[['a', 'o']], top=[0], ext=[[0, 0]])),
@@ -230,9 +235,11 @@ def random_scenario(rng, big=False):
     cbs = [random_code(rng, 0, n_classes, n_cbs, in_cb=True, cb_index=j, max_len=4) for j in range(n_cbs)]
     top = [rng.randrange(n_classes) for _ in range(rng.randint(1, 4))]
     ext = [[rng.randrange(len(top)), rng.randrange(n_cbs)] for _ in range(rng.choice([0, 0, 1, 2]))] if n_cbs else []
-    return dict(classes=classes, cbs=cbs, top=top, ext=ext)
+    has_wait = any(st['end'] == 'wait' for c in classes for st in c)
+    kills = sorted({rng.randrange(len(top) + 2) for _ in range(rng.choice([0, 1, 2]))}) if has_wait else []
+    return dict(classes=classes, cbs=cbs, top=top, ext=ext, kills=kills)
 
 
 def scenario_size(scn):
     return (sum(len(st['code']) + 1 for c in scn['classes'] for st in c) + sum(len(c) + 1 for c in scn['cbs']) + len(scn['top'])
-            + len(scn.get('ext', [])))
+            + len(scn.get('ext', [])) + len(scn.get('kills', [])))
